@@ -1,4 +1,6 @@
 #include "seams.h"
+#include <sys/stat.h>
+#include <unistd.h>
 #include <algorithm>
 #include <cerrno>
 #include <cstdarg>
@@ -39,6 +41,10 @@ locale_t __real_duplocale(locale_t);
 void __real_freelocale(locale_t);
 char *__real_setlocale(int, const char *);
 uint32_t __real_arc4random(void);
+int __real_fstat(int, struct stat *);
+int __real_fstat64(int, struct stat64 *);
+off_t __real_lseek(int, off_t, int);
+off64_t __real_lseek64(int, off64_t, int);
 }
 
 // ------------------------------------------------------------------ symbol table
@@ -437,6 +443,8 @@ void FdSim::reset_run()
 	script.clear();
 	script_pos = 0;
 	open_errno = 0;
+	as_fifo = false;
+	fstats = lseeks = 0;
 	reads = writes = opens = closes = injected = bad_close = eof_reads = short_xfers = full_buffer_reads = 0;
 	events.clear();
 }
@@ -582,6 +590,88 @@ int __wrap_open(const char *path, int flags, ...)
 	return g_fd.open_sim(path, acc == O_RDONLY || acc == O_RDWR, acc == O_WRONLY || acc == O_RDWR,
 	                     (flags & O_TRUNC) != 0, (flags & O_CREAT) != 0);
 }
+// fstat / lseek on simulated descriptors (a library may size its buffer from st_size, or skip to the current offset)
+static int sim_fstat_common(int fd, mode_t *mode, off_t *size)
+{
+	auto it = g_fd.fds.find(fd);
+	g_fd.fstats++;
+	if (it == g_fd.fds.end() || !it->second.open)
+	{
+		errno = EBADF;
+		return -1;
+	}
+	*mode = g_fd.as_fifo ? (S_IFIFO | 0600) : (S_IFREG | 0644);
+	*size = g_fd.as_fifo ? 0 : (off_t)g_fd.files[it->second.path].size();
+	return 0;
+}
+int __wrap_fstat(int fd, struct stat *st)
+{
+	if (fd < 1000)
+		return __real_fstat(fd, st);
+	mode_t m;
+	off_t sz;
+	if (sim_fstat_common(fd, &m, &sz) != 0)
+		return -1;
+	memset(st, 0, sizeof *st);
+	st->st_mode = m;
+	st->st_size = sz;
+	st->st_nlink = 1;
+	st->st_blksize = 4096;
+	st->st_blocks = (sz + 511) / 512;
+	return 0;
+}
+int __wrap_fstat64(int fd, struct stat64 *st)
+{
+	if (fd < 1000)
+		return __real_fstat64(fd, st);
+	mode_t m;
+	off_t sz;
+	if (sim_fstat_common(fd, &m, &sz) != 0)
+		return -1;
+	memset(st, 0, sizeof *st);
+	st->st_mode = m;
+	st->st_size = sz;
+	st->st_nlink = 1;
+	st->st_blksize = 4096;
+	st->st_blocks = (sz + 511) / 512;
+	return 0;
+}
+static off_t sim_lseek(int fd, off_t off, int whence)
+{
+	auto it = g_fd.fds.find(fd);
+	g_fd.lseeks++;
+	if (it == g_fd.fds.end() || !it->second.open)
+	{
+		errno = EBADF;
+		return -1;
+	}
+	if (g_fd.as_fifo)
+	{
+		errno = ESPIPE;
+		return -1;
+	}
+	SimFd &f = it->second;
+	off_t base = whence == SEEK_SET ? 0 : whence == SEEK_CUR ? (off_t)f.pos : whence == SEEK_END ? (off_t)g_fd.files[f.path].size() : -1;
+	if (base < 0 || base + off < 0)
+	{
+		errno = EINVAL;
+		return -1;
+	}
+	f.pos = (size_t)(base + off);
+	return (off_t)f.pos;
+}
+off_t __wrap_lseek(int fd, off_t off, int whence)
+{
+	if (fd < 1000)
+		return __real_lseek(fd, off, whence);
+	return sim_lseek(fd, off, whence);
+}
+off64_t __wrap_lseek64(int fd, off64_t off, int whence)
+{
+	if (fd < 1000)
+		return __real_lseek64(fd, off, whence);
+	return (off64_t)sim_lseek(fd, (off_t)off, whence);
+}
 int __wrap_close(int fd)
 {
 	if (fd < 1000)
@@ -696,6 +786,17 @@ void __wrap_arc4random_buf(void *buf, size_t n)
 		uint32_t v = __wrap_arc4random();
 		memcpy(b + i, &v, n - i < 4 ? n - i : 4);
 	}
+}
+ssize_t __wrap_getrandom(void *buf, size_t n, unsigned flags)
+{
+	(void)flags;
+	__wrap_arc4random_buf(buf, n);
+	return (ssize_t)n;
+}
+int __wrap_getentropy(void *buf, size_t n)
+{
+	__wrap_arc4random_buf(buf, n);
+	return 0;
 }
 uint32_t __wrap_arc4random_uniform(uint32_t upper)
 {
